@@ -25,18 +25,18 @@ const c18Name = "bob.jkl"
 
 type c18Model struct {
 	Blocks    int
-	NameOwner string                       // principal bob.jkl resolves to, per the harness' record of transfers
-	Inbox     map[string]map[string]string // principal -> "from|time" -> contents
-	Blocked   map[string]map[string]bool   // principal -> blocked principal
+	NameOwner string                         // principal bob.jkl resolves to, per the harness' record of transfers
+	Inbox     map[string]map[string][]string // principal -> "from|time" -> contents sent under that identity, in order
+	Blocked   map[string]map[string]bool     // principal -> blocked principal
 }
 
 func (m c18Model) Key() []byte { return jkey(m) }
 func (m c18Model) clone() c18Model {
-	n := c18Model{Blocks: m.Blocks, NameOwner: m.NameOwner, Inbox: map[string]map[string]string{}, Blocked: map[string]map[string]bool{}}
+	n := c18Model{Blocks: m.Blocks, NameOwner: m.NameOwner, Inbox: map[string]map[string][]string{}, Blocked: map[string]map[string]bool{}}
 	for a, in := range m.Inbox {
-		n.Inbox[a] = map[string]string{}
+		n.Inbox[a] = map[string][]string{}
 		for k, v := range in {
-			n.Inbox[a][k] = v
+			n.Inbox[a][k] = append([]string{}, v...)
 		}
 	}
 	for a, b := range m.Blocked {
@@ -65,9 +65,9 @@ func (C18) Config() world.Config {
 }
 func (C18) Stores() []string { return []string{notiftypes.StoreKey, "rns"} }
 func (C18) Init(env world.Env) mc.Model {
-	m := c18Model{NameOwner: "B", Inbox: map[string]map[string]string{}, Blocked: map[string]map[string]bool{}}
+	m := c18Model{NameOwner: "B", Inbox: map[string]map[string][]string{}, Blocked: map[string]map[string]bool{}}
 	for _, x := range c18Who {
-		m.Inbox[x] = map[string]string{}
+		m.Inbox[x] = map[string][]string{}
 		m.Blocked[x] = map[string]bool{}
 	}
 	return m
@@ -171,7 +171,8 @@ func (C18) Apply(env world.Env, mm mc.Model, ev string) mc.Step {
 		if res.OK() {
 			st.Outcome = "ok"
 			// the sender is an account: the spelling of its address (capitals are valid bech32) does not matter
-			m.Inbox[to][sender+"|"+strconv.FormatInt(now, 10)] = contents
+			id := sender + "|" + strconv.FormatInt(now, 10)
+			m.Inbox[to][id] = append(m.Inbox[to][id], contents)
 		}
 	case "Block", "BlockUpper":
 		var list []string
@@ -235,29 +236,47 @@ func (C18) Apply(env world.Env, mm mc.Model, ev string) mc.Step {
 			vs = append(vs, viol("inbox-query", "error", "query for %s failed: %v", x, err))
 			continue
 		}
-		var got, want []string
+		// a second send with the same (sender, time) identity may replace the first or be listed next to it
+		// (unspecified): the last contents must be listed, earlier ones may be
+		got := map[string][]string{}
 		for _, n := range resp.Notifications {
 			from := w.NameOf(n.From)
 			if lower := strings.ToLower(n.From); lower != n.From && strings.ToUpper(n.From) == n.From {
 				from = w.NameOf(lower)
 			}
-			got = append(got, fmt.Sprintf("to=%s from=%s time=%d contents=%s", w.NameOf(n.To), from, n.Time, n.Contents))
+			if w.NameOf(n.To) != x {
+				vs = append(vs, viol("inbox-lists-exactly-what-was-sent", "foreign-recipient via="+p[0], "inbox of %s lists an entry addressed to %s", x, w.NameOf(n.To)))
+			}
+			id := from + "|" + strconv.FormatInt(n.Time, 10)
+			got[id] = append(got[id], n.Contents)
 		}
-		for id, c := range m.Inbox[x] {
-			ft := strings.Split(id, "|")
-			want = append(want, fmt.Sprintf("to=%s from=%s time=%s contents=%s", x, ft[0], ft[1], c))
+		var extra, missing []string
+		for id, sent := range m.Inbox[x] {
+			g := got[id]
+			if !has(g, sent[len(sent)-1]) {
+				missing = append(missing, fmt.Sprintf("to=%s from|time=%s contents=%s", x, id, sent[len(sent)-1]))
+			}
+			for _, c := range g {
+				if !has(sent, c) {
+					extra = append(extra, fmt.Sprintf("to=%s from|time=%s contents=%s", x, id, c))
+				}
+			}
 		}
-		sort.Strings(got)
-		sort.Strings(want)
-		if strings.Join(got, ";") != strings.Join(want, ";") {
-			extra, missing := setDiff(got, want), setDiff(want, got)
+		for id, g := range got {
+			if _, ok := m.Inbox[x][id]; !ok {
+				extra = append(extra, fmt.Sprintf("to=%s from|time=%s contents=%v", x, id, g))
+			}
+		}
+		sort.Strings(extra)
+		sort.Strings(missing)
+		if len(extra)+len(missing) > 0 {
 			sig := ""
 			if len(extra) > 0 {
 				sig = "extra-entry via=" + p[0]
-				if strings.Contains(extra[0], "time=0 contents=") && strings.HasSuffix(extra[0], "contents=") {
+				if strings.Contains(extra[0], "|0 contents=[]") {
 					sig = "extra-entry block-record-listed-as-notification"
 				}
-			} else if len(missing) > 0 {
+			} else {
 				sig = "missing-entry via=" + p[0]
 			}
 			vs = append(vs, viol("inbox-lists-exactly-what-was-sent", sig, "after %s inbox of %s: extra %v, missing %v", ev, x, extra, missing))
